@@ -4,13 +4,13 @@ namespace XV.Drv.Safety
 open XV.Safety XV.Drv
 
 /-- entry token: `<addr><kind>`; kind `v` = signature verifies for the certified id under a key
-hashing to the claimed address; every other kind (`w` wrong id, `c` corrupted, `m` key/address
+hashing to the claimed address (`r` = the same, re-signed: other signature bytes); every other kind (`w` wrong id, `c` corrupted, `m` key/address
 mismatch) does not verify. -/
 def parseEntry (t : String) : Option Entry :=
   let digits := t.takeWhile Char.isDigit
   let kind := t.drop digits.positions.count
   match digits.toString.toNat? with
-  | some a => if kind.toString.length == 1 then some ⟨a, kind.toString == "v"⟩ else none
+  | some a => if kind.toString.length == 1 then some ⟨a, kind.toString == "v" || kind.toString == "r"⟩ else none
   | none => none
 
 def parseEntries (ts : List String) : Option (List Entry) := ts.mapM parseEntry
@@ -24,6 +24,11 @@ def step (_ : Unit) (line : String) : Unit × String :=
   | ["pm", p, l] =>
     match p.toInt?, l.toInt? with
     | some p, some l => ((), boolStr (XV.Gen.checkPacemaker p l))
+    | _, _ => ((), "bad-op")
+  | "cpy" :: n :: _col :: es =>
+    match n.toNat?, parseEntries es with
+    | some n, some es =>
+      ((), if checkProposal (List.range n) es == .accept then "accept" else "reject")
     | _, _ => ((), "bad-op")
   | "cp" :: n :: _col :: es =>
     match n.toNat?, parseEntries es with
